@@ -17,7 +17,9 @@ PROPERTY = 'C14'
 META = {
     'bounds': 'sequentialised connection at protocol 757; fault origins '
               '{early listener, ordinary listener, built-in reaction, '
-              'decoder (malformed frame), exit callback}; handler chains of '
+              'decoder (malformed frame), exit callback, outgoing listener '
+              'raising inside the flush of a listener-initiated '
+              'disconnect()}; handler chains of '
               '0..3 handlers (thorough: 4) with type filters from a 3-class '
               'hierarchy (or none), early flags, optionally reconnecting from '
               'inside the handler - generated from VERIF_SEED (16 quick / 80 '
@@ -25,7 +27,8 @@ META = {
               '"raises a new exception" and a symbolic choice of its class; '
               'the class of the original exception symbolic (3 classes); '
               'final handler in {None, False, returning, raising}; afterwards '
-              'the same object connects again',
+              'the same object connects again; a reconnect from inside a '
+              'handler that is refused',
     'outside': 'thread interleavings; BaseException subclasses; handlers '
                'that register further handlers',
     'assumptions': ['sequentialised connection (E-socket/E-select/E-thread)'],
@@ -61,7 +64,8 @@ def random_chain(rnd, maxlen):
     return [(rnd.choice(list(FILTERS)), rnd.random() < 0.3) for _ in range(n)]
 
 
-def routing(ctx, origin, chain, final, reconnect=False, sentinel=False):
+def routing(ctx, origin, chain, final, reconnect=False, sentinel=False,
+            refuse_retry=False):
     from minecraft.networking.connection import Connection, ConnectionContext
     from minecraft.networking.packets import Packet, clientbound
     pv = 757
@@ -93,7 +97,7 @@ def routing(ctx, origin, chain, final, reconnect=False, sentinel=False):
         raised['origin'] = e
         return e
     specs = []
-    with World(ctx, factory) as wld:
+    with World(ctx, factory, refuse=[1] if refuse_retry else ()) as wld:
         def on_exit():
             if origin == 'exit':
                 raise origin_exc()
@@ -164,7 +168,11 @@ def routing(ctx, origin, chain, final, reconnect=False, sentinel=False):
             def h(exc, info, spec=spec):
                 calls.append((spec['k'], exc))
                 if spec['reconnect']:
-                    conn.connect()
+                    try:
+                        conn.connect()
+                    except OSError as e:    # refused (refuse_retry)
+                        raised[spec['k']] = e
+                        raise
                 if spec['raises']:
                     e = spec['newcls']('handler %d' % spec['k'])
                     raised[spec['k']] = e
@@ -193,9 +201,9 @@ def routing(ctx, origin, chain, final, reconnect=False, sentinel=False):
         for spec in order:
             if not spec['types'] or isinstance(exc, spec['types']):
                 exp_calls.append((spec['k'], exc))
-                if spec['reconnect']:
+                if spec['reconnect'] and not refuse_retry:
                     reconnected = True
-                if spec['raises']:
+                if spec['raises'] or (spec['reconnect'] and refuse_retry):
                     exc = raised.get(spec['k'])
                 else:
                     caught = True
@@ -223,14 +231,28 @@ def routing(ctx, origin, chain, final, reconnect=False, sentinel=False):
             conds.append(z3.BoolVal(len(wld.sockets) == 2 and
                                     not wld.sockets[1].closed))
         else:
-            conds.append(z3.BoolVal(s0.closed and len(wld.sockets) == 1))
+            attempted = refuse_retry and any(
+                k == 0 for k, _ in exp_calls if k != 'final') and \
+                any(sp['reconnect'] for sp in specs)
+
+            def gone(sk):
+                # closed, or released: its file object closed and the
+                # connection no longer refers to it (the descriptor goes
+                # with the last reference)
+                cur = getattr(conn.socket, 'actual_socket', conn.socket)
+                return sk.closed or (sk.stream is not None and
+                                     sk.stream.closed and cur is not sk)
+            n_socks = 2 if attempted else 1
+            conds.append(z3.BoolVal(len(wld.sockets) == n_socks and
+                                    all(gone(sk) for sk in wld.sockets)))
             conds.append(z3.BoolVal(conn.networking_thread is None and
                                     conn.new_networking_thread is None))
             # the same object can connect again
             try:
+                wld.refuse.clear()
                 conn.connect()
                 again = wld.run(max_threads=3)
-                conds.append(z3.BoolVal(len(wld.sockets) == 2 and
+                conds.append(z3.BoolVal(len(wld.sockets) == n_socks + 1 and
                                         len(again) >= 2 and
                                         again[-1]['quiescent'] and
                                         again[-1]['exc'] is None))
@@ -318,14 +340,22 @@ def instances(tier, seed):
     for _ in range(n):
         combos.append((rnd.choice(ORIGINS), random_chain(rnd, maxlen),
                        rnd.choice(FINALS), rnd.random() < 0.15))
+    # a handler reconnects and that connection is refused
+    for fin in FINALS:
+        combos.append(('listener', fixed[1], fin, 'refused'))
+        combos.append(('decoder', fixed[2], fin, 'refused'))
     for i, (origin, chain, fin, rec) in enumerate(combos):
         if rec and not chain:
             rec = False
+        refused = rec == 'refused'
+        rec = bool(rec)
         out.append(Instance(
-            'routing:%d:%s:%s%s' % (i, origin, fin, ':reconnect' if rec
+            'routing:%d:%s:%s%s' % (i, origin, fin, ':reconnect-refused'
+                                    if refused else ':reconnect' if rec
                                     else ''), 'routing',
             {'origin': origin, 'chain': [list(c) for c in chain],
-             'final': fin, 'reconnect': rec}, W=96, budget_s=1800,
+             'final': fin, 'reconnect': rec, 'refuse_retry': refused},
+            W=96, budget_s=1800,
             max_decisions=100000,
             note=' '.join('%s%s' % (f, '^' if e else '') for f, e in chain)))
     for fin in ('returns', 'false'):
